@@ -40,20 +40,23 @@ def searchLeft : List Rat → Rat → Nat
 /-- a history series may contain NaN entries (missing data) -/
 abbrev RKnots := List (Rat × Res)
 
+/-- value strictly inside a segment: the chord (NaN when an end is NaN) in linear mode, the
+    previous / next knot value in the piecewise constant modes -/
+def segVal (mode : Nat) (a b t : Rat) (fa fb : Res) : Res :=
+  match mode with
+  | 0 => Res.map2 (fun x y => x + (y - x) / (b - a) * (t - a)) fa fb
+  | 1 => fa
+  | _ => fb
+
 /-- `interpolate(t, times, values, nan, nan, mode)` for a series with NaN entries: NaN outside
-    the series; the knot value on a knot; between two knots the chord (NaN when an end is NaN) in
-    linear mode, the previous / next value in the piecewise constant modes -/
+    the series; the knot value on a knot; `segVal` between two knots -/
 def interpNaN (mode : Nat) : RKnots → Rat → Res
   | [], _ => .nan
   | [(a, fa)], t => if t = a then fa else .nan
   | (a, fa) :: (b, fb) :: rest, t =>
       if t < a then .nan
       else if t = a then fa
-      else if t < b then
-        (match mode with
-         | 0 => Res.map2 (fun x y => x + (y - x) / (b - a) * (t - a)) fa fb
-         | 1 => fa
-         | _ => fb)
+      else if t < b then segVal mode a b t fa fb
       else interpNaN mode ((b, fb) :: rest) t
 
 /-- history of one collocated variable on the common history time stamps: interpolated by its
@@ -212,5 +215,9 @@ def dbar (d0 : Rat) (ds : List Rat) (i : Int) : Rat :=
 /-- the buffer the invariant prescribes after the steps `ds`: entry `k` holds `D̄(j - k)` -/
 def bufSpec (n : Nat) (d0 : Rat) (ds : List Rat) : List Rat :=
   (List.range n).map (fun (k : Nat) => dbar d0 ds ((ds.length : Int) - (k : Int)))
+
+/-- a NaN-free series as a series that may contain NaN -/
+def numK (ks : Knots) : RKnots := ks.map (fun k => (k.1, Res.num k.2))
+
 
 end RtcVerif.C16
